@@ -51,6 +51,13 @@ SWAPS = [
     (r'\bself\b', 'other'), (r'\bother\b', 'self'), (r'\brhs\b', 'self'),
     (r'\blhs\b', 'rhs'),
     (r' \+= ', ' -= '), (r' -= ', ' += '),
+    (r'\.0\b(?!\.)', '.1'), (r'\.1\b(?!\.)', '.0'),
+    (r'\bs\b', 't'), (r'\bt\b', 's'),
+    (r'\bfs\b', 'ft'), (r'\bft\b', 'fs'),
+    (r"(?<!')\ba\b", 'b'), (r"(?<!')\bb\b", 'a'),
+    (r'\binject0\b', 'inject1'), (r'\binject1\b', 'inject0'),
+    (r'\.dagger\(\)', ''),
+    (r'\bmin\b', 'max'), (r'\blast\b', 'first'),
     (r'\.iter\(\)', '.iter().rev()'),
     (r'\((&?\w+), (&?\w+)\)', r'(\2, \1)'),
     (r'^(\s*)if (?!let )(.+) \{$', r'\1if !(\2) {'),
